@@ -7,7 +7,7 @@
    universally quantified: every theorem holds in every state (absent, complete, torn) of the duration rewrite. *)
 From Coq Require Import List ZArith Bool.
 Require Import MTX.Lib.IntWrap MTX.Model.C24_MulDiv MTX.Model.C28_SegRead MTX.Proofs.C28_SegRead
-  MTX.Model.C27_Fmp4Rec MTX.Proofs.C27_Fmp4Rec.
+  MTX.Model.C27_Fmp4Rec MTX.Proofs.C27_Fmp4Rec MTX.Model.C27_Segmenter MTX.Proofs.C27_Segmenter MTX.Proofs.C27_SegLink.
 Import ListNotations.
 Local Open Scope Z_scope.
 
@@ -73,3 +73,98 @@ Example C27_walk_example :
   complete [ex_part 8 12; ex_part 8 16; ex_part 12 16] 85 = 2%nat /\
   moof_loop (crash_image [1; 2; 3; 4] [5; 6; 7; 8] [ex_part 8 12; ex_part 8 16; ex_part 12 16] 104 0) 10 24 (-1) = Ok 100.
 Proof. exact example_walk. Qed.
+
+
+(* ================================================================================================================
+   The segmenter (Model/C27_Segmenter.v): formatFMP4Track.write / formatFMP4Segment / formatFMP4Part as a state
+   machine over samples (track, dts, ntp, non-sync, size); `run c evs` = first-key-frame gate, then one
+   formatFMP4Track.write per sample until the first error, then formatFMP4.close. Its log: SCreate n (create file n +
+   Write(init)), SPart n p (one Write), SClose n d (duration rewrite + Close). All theorems: for EVERY configuration
+   and EVERY sample sequence. *)
+
+(* the log is  create 0, parts of 0, close 0, create 1, ...: it is the concatenation of the logs of its files
+   (create; parts; close), and after formatFMP4.close every file is closed *)
+Theorem C27_segmenter_log : forall c evs,
+  let L := x_log (run c evs) in
+  log_ok None 0 L = true /\ log_open None L = None /\ concat (map ops_of_file (files_of L)) = L /\
+  (forall f, In f (files_of L) -> f.(f_closed) <> None).
+Proof. exact segmenter_log. Qed.
+Print Assumptions C27_segmenter_log.
+
+(* the i-th file carries segment number i: consecutive files of a recording have numbers n, n+1 (with the same
+   stream id: what C27_continuity needs) *)
+Theorem C27_segment_numbers_consecutive : forall c evs i f,
+  nth_error (files_of (x_log (run c evs))) i = Some f -> f.(f_num) = Z.of_nat i.
+Proof. exact numbers_consecutive. Qed.
+Print Assumptions C27_segment_numbers_consecutive.
+
+(* the samples of the parts of all files, concatenated, are exactly the samples for which formatFMP4Segment.write
+   returned nil (x_acc), in order - hence in order per track as well *)
+Theorem C27_no_sample_lost : forall c evs, log_samples (x_log (run c evs)) = x_acc (run c evs).
+Proof. exact no_sample_lost. Qed.
+Print Assumptions C27_no_sample_lost.
+
+(* the bounds the code enforces on a part, exactly: payload sizes add up to at most maxPartSize; without its last
+   sample the part is shorter than partDuration (duration() = max end, initially 0, minus the first dts), unless it has
+   a single sample; a part followed by another part of the same file has reached partDuration *)
+Theorem C27_parts_bounded : forall c evs, 0 <= c_max_part c ->
+  parts_bounded c None (x_log (run c evs)) = true /\
+  (forall k p, In (SPart k p) (x_log (run c evs)) -> part_ok c (o_smps p) = true) /\
+  (forall l1 k p k' q l2, x_log (run c evs) = l1 ++ SPart k p :: SPart k' q :: l2 -> c_part_dur c <= span (o_smps p)).
+Proof. exact parts_bounded_thm. Qed.
+Print Assumptions C27_parts_bounded.
+
+(* with one video track, the first video sample of every file is a sync sample (gate + switch condition +
+   discard-until-sync after a late video sample, fix 2f5314e) *)
+Theorem C27_starts_on_sync : forall c v evs, video_tracks c = [v] ->
+  forall f, In f (files_of (x_log (run c evs))) -> first_video_sync (file_samples f) = true.
+Proof. exact starts_on_sync. Qed.
+Print Assumptions C27_starts_on_sync.
+
+(* ... which cannot hold with two video tracks: the switch follows the key frames of one of them *)
+Theorem C27_starts_on_sync_two_video_refuted :
+  exists c evs f, length (video_tracks c) = 2%nat /\ In f (files_of (x_log (run c evs))) /\
+                  first_video_sync (file_samples f) = false.
+Proof. exact two_video_refuted. Qed.
+Print Assumptions C27_starts_on_sync_two_video_refuted.
+
+(* the log only grows: when the process stops after any number k of samples, the calls made so far are a prefix of the
+   final log (the last one possibly torn: the crash model above) *)
+Theorem C27_log_prefix : forall c evs k,
+  exists l', x_log (run c evs) = x_log (run_from c (init_st c) (firstn k (gate c evs))) ++ l'.
+Proof. exact log_prefix. Qed.
+Print Assumptions C27_log_prefix.
+
+(* read as calls on its file (encoders of mediacommon / go-mp4 = arbitrary functions), the log of a file IS the
+   write log of C27_write_log ... *)
+Theorem C27_segmenter_write_log : forall enc_ftyp enc_moov enc_part dur_off enc_dur f d, f.(f_closed) = Some d ->
+  flat_map (wops_of enc_ftyp enc_moov enc_part dur_off enc_dur f) (ops_of_file f) =
+  write_log (enc_ftyp f.(f_num) f.(f_sdts) f.(f_sntp)) (enc_moov f.(f_num) f.(f_sdts) f.(f_sntp))
+            (map enc_part f.(f_parts)) (dur_off f.(f_num) f.(f_sdts) f.(f_sntp)) (enc_dur d).
+Proof. exact link_write_log. Qed.
+Print Assumptions C27_segmenter_write_log.
+
+(* ... so for every file of every run, cut anywhere and zero-filled, the reader's walk ends on expect_last *)
+Theorem C27_segmenter_recover : forall enc_ftyp enc_moov enc_part dur_off enc_dur c evs f j z,
+  In f (files_of (x_log (run c evs))) -> (forall p, wf_part (enc_part p)) ->
+  let ft := enc_ftyp f.(f_num) f.(f_sdts) f.(f_sntp) in
+  let mv := enc_moov f.(f_num) f.(f_sdts) f.(f_sntp) in
+  let ps := map enc_part f.(f_parts) in
+  wf_bytes (crash_image ft mv ps j z) = true ->
+  appended (flat_map (wops_of enc_ftyp enc_moov enc_part dur_off enc_dur f) (ops_of_file f))
+  = init_bytes ft mv ++ parts_bytes ps /\
+  f.(f_closed) <> None /\
+  moof_loop (crash_image ft mv ps j z) (fuel_of_file (crash_image ft mv ps j z)) (len (init_bytes ft mv)) (-1)
+  = Ok (expect_last ps (len (init_bytes ft mv)) j (-1)).
+Proof. exact link_recover. Qed.
+Print Assumptions C27_segmenter_recover.
+
+(* audio creates the first segment 10 ms after the first key frame: the key frame is late, its group is discarded,
+   three files, all closed, each with video, each starting on a sync sample (by C27_starts_on_sync) *)
+Example C27_segmenter_example :
+  let x := run ex_cfg ex_evs in
+  firstn 16 (x_outs x) = [0; 0; 0; 1; 0; 0; 1; 0; 0; 1; 0; 0; 1; 0; 0; 1] /\
+  map (fun f => (f_num f, length (f_parts f), f_closed f, has_video (file_samples f))) (files_of (x_log x))
+  = [(0, 5%nat, Some 390000000, true); (1, 5%nat, Some 410000000, true); (2, 5%nat, Some 400000000, true)] /\
+  video_tracks ex_cfg = [0%nat] /\ length (log_samples (x_log x)) = 83%nat.
+Proof. exact example_segmenter. Qed.
